@@ -398,7 +398,7 @@ fn case_transform(seed: u64) {
     let rule = json!({
         "id": "t1", "rank": 0,
         "source": {"path": "/t/@m", "host": "@h.example.org", "headers": [{"type": "match_regex", "name": "X-T", "value": "v@k"}]},
-        "target": "/to/@m/@h/@k/@v1",
+        "target": "/to/@m/@h/@k/@v1/@v2/@v3/@v4/@v5/@v6/@v7",
         "status_code": 302,
         "markers": [
             {"name": "m", "regex": re_m, "transformers": numeric(&mut rng)},
@@ -409,7 +409,13 @@ fn case_transform(seed: u64) {
             {"name": "m", "type": {"marker": "m"}, "transformers": numeric(&mut rng)},
             {"name": "h", "type": {"marker": "h"}, "transformers": numeric(&mut rng)},
             {"name": "k", "type": {"marker": "k"}, "transformers": numeric(&mut rng)},
-            {"name": "v1", "type": {"request_header": {"name": "X-T", "default": null}}, "transformers": numeric(&mut rng)}
+            {"name": "v1", "type": {"request_header": {"name": "X-T", "default": null}}, "transformers": numeric(&mut rng)},
+            {"name": "v2", "type": "request_time", "transformers": numeric(&mut rng)},
+            {"name": "v3", "type": "request_remote_address", "transformers": numeric(&mut rng)},
+            {"name": "v4", "type": "request_host", "transformers": numeric(&mut rng)},
+            {"name": "v5", "type": "request_path", "transformers": numeric(&mut rng)},
+            {"name": "v6", "type": "request_method"},
+            {"name": "v7", "type": "request_scheme"}
         ]) },
         "header_filters": [{"action": "add", "header": "X-O", "value": "@m|@h|@k"}],
         "body_filters": [{"action": "append_text", "content": "@m|@h|@k"}]
@@ -428,6 +434,13 @@ fn case_transform(seed: u64) {
     let k = *rng.pick(&captures);
     let mut request = Request::from_config(&config, format!("/t/{m}"), Some(format!("{h}.example.org")), None, None, None, None);
     request.add_header("X-T".into(), format!("v{k}"), false);
+    // request-derived variables: reception times at the edges of what the date type can hold, odd addresses
+    if rng.coin() {
+        request.set_created_at(Some(rng.pick(&["+262143-01-01T00:00:00Z", "-262143-01-01T00:00:00Z", "+10000-01-01T00:00:00Z", "9999-12-31T23:59:59Z", "0000-01-01T00:00:00Z", "-0001-12-31T00:00:00Z", "2024-02-29T12:00:00+14:00"]).to_string()));
+    }
+    if rng.coin() {
+        request.remote_addr = rng.pick(&["10.1.2.3", "::1", "::ffff:10.1.2.3", "fe80::1"]).parse().ok();
+    }
     let rebuilt = Request::rebuild_with_config(&config, &request);
     let routes = router.match_request(&rebuilt);
     for route in &routes {
